@@ -924,7 +924,9 @@ func c03FlushMeets(ctx *core.Ctx, dotu, flushop bool) core.Result {
 // is still inside the implementation; the writer is then parked so that the replies of a burst of newer requests are
 // packed but unsent; A's worker answers late (RespondRread / RespondError on a request already answered). Every
 // newer request must still get exactly the reply the implementation produced for it, and nothing else may appear.
-func c03LateAfterCancel(ctx *core.Ctx, dotu bool) core.Result {
+func c03LateAfterCancel(ctx *core.Ctx, dotu bool) core.Result { return lateAfterCancel(ctx, "C03", dotu) }
+
+func lateAfterCancel(ctx *core.Ctx, prop string, dotu bool) core.Result {
 	var res core.Result
 	s := NewSess(Config{Dotu: dotu, Msize: 8192, Flush: true})
 	c := s.Dial()
@@ -1049,7 +1051,7 @@ func c03LateAfterCancel(ctx *core.Ctx, dotu bool) core.Result {
 			want[m.Tag] = true
 			r, err := c.WaitTag(m.Tag, W)
 			if err != nil || r.Msg == nil {
-				res.Violate("C03;missing-reply;late-after-cancel", fmt.Sprintf("no reply for %s sent after an implementation-cancelled request", m.String()), det)
+				res.Violate(prop+";missing-reply;late-after-cancel", fmt.Sprintf("no reply for %s sent after an implementation-cancelled request", m.String()), det)
 				continue
 			}
 			if len(ops) == 0 {
@@ -1061,15 +1063,15 @@ func c03LateAfterCancel(ctx *core.Ctx, dotu bool) core.Result {
 			}
 			exp := wire.Encode(expectedReply(m, plans[m.Tag], ops[m.Tag], 0, dotu), dotu)
 			if !bytes.Equal(exp, r.Raw) {
-				res.Violate("C03;wrong-content;late-after-cancel", fmt.Sprintf("reply to %s is not what the implementation produced for it: %s", m.String(), r.Msg.String()), det)
+				res.Violate(prop+";wrong-content;late-after-cancel", fmt.Sprintf("reply to %s is not what the implementation produced for it: %s", m.String(), r.Msg.String()), det)
 			}
 		}
 		c.Quiesce(W)
 		for _, r := range c.Pending() {
 			if r.Msg == nil {
-				res.Violate("C03;undecodable;late-after-cancel", "undecodable frame after a late answer to a cancelled request", det)
+				res.Violate(prop+";undecodable;late-after-cancel", "undecodable frame after a late answer to a cancelled request", det)
 			} else {
-				res.Violate("C03;unsolicited-reply;late-after-cancel", "reply for a tag with no outstanding request: "+r.Msg.String(), det)
+				res.Violate(prop+";unsolicited-reply;late-after-cancel", "reply for a tag with no outstanding request: "+r.Msg.String(), det)
 			}
 		}
 		// drain whatever was reported so that the next round starts clean
